@@ -406,6 +406,90 @@ def m5_verify_before_serve(run):
     run.floor("M5", "call sites", n, 4)
 
 
+def m7_generator_publishes_every_key(run):
+    run.rule("M7", "generation side of the round trip: do_key_descriptor emits "
+             "one KeyDescriptor per configured certificate under the use it is "
+             "configured for (cert -> 'signing', enc_cert -> 'encryption'), "
+             "unconditionally within its loop - the uses the store's key "
+             "filter (C03.R6) reads back")
+    m = run.model
+    fi = m.func("metadata.do_key_descriptor")
+    cfg = cfg_of(fi, m)
+    org = Origins(cfg)
+    seen = {}
+    for nd, c in cfg.call_nodes("append"):
+        kd = c.args[0] if c.args else None
+        if not (isinstance(kd, ast.Call) and call_name(kd) == "KeyDescriptor"):
+            continue
+        use = arg_of(kd, None, "use")
+        texts = [k.value for x in ast.walk(kd) if isinstance(x, ast.Call) and
+                 call_name(x) == "X509Certificate" for k in x.keywords
+                 if k.arg == "text"]
+        src = set()
+        for t in texts:
+            src |= {(a.kind, a.text) for a in org.of(t, nd.id)}
+        key = "%s::%s" % (fi.qual, norm_text(c)[:40] + "..use=" +
+                          (unparse(use) if use is not None else "None"))
+        want = {"'signing'": ("param", "cert"),
+                "'encryption'": ("param", "enc_cert")}.get(
+                    unparse(use) if use is not None else "")
+        run.check(want is not None and src == {want}, "M7", key + "::source",
+                  "certificate text comes from the parameter of that use",
+                  "a KeyDescriptor use=%s is built from %s" % (
+                      unparse(use) if use is not None else None, sorted(src)),
+                  fi.loc(c))
+        if want:
+            seen[want[1]] = True
+        # inside its loop the append is unconditional: no guard mentions the
+        # loop variable
+        loops = [l for l in cfg.by_kind("foriter")
+                 if cfg.dominates(l.id, nd.id)]
+        lvars = {n.id for l in loops for n in ast.walk(l.ast.target)
+                 if isinstance(n, ast.Name)}
+        def per_use_dedupe(e, p):
+            # `if c in seen: continue` where `seen` is filled only inside this
+            # very loop drops repetitions within one use, not a use
+            if not (isinstance(e, ast.Compare) and isinstance(e.ops[0], ast.In)
+                    and p is False and isinstance(e.comparators[0], ast.Name)):
+                return False
+            coll = e.comparators[0].id
+            fills = [n2 for n2, c2 in cfg.call_nodes("add") +
+                     cfg.call_nodes("append")
+                     if attr_chain(c2.func).split(".")[0] == coll]
+            inner = loops[-1] if loops else None
+            return bool(fills) and inner is not None and all(
+                cfg.dominates(inner.id, f.id) and
+                inner.id in cfg.reachable_from(f.id) for f in fills) and \
+                len([l for l in cfg.by_kind("foriter")
+                     if any(cfg.dominates(l.id, f.id) for f in fills)]) == \
+                len(loops)
+        gs = [(unparse(e), p) for e, p, _ in cfg.guards(nd.id)
+              if {x.id for x in ast.walk(e) if isinstance(x, ast.Name)} & lvars
+              and not per_use_dedupe(e, p)]
+        run.check(bool(loops) and not gs, "M7", key + "::every-certificate",
+                  "every configured certificate gets its KeyDescriptor",
+                  "a configured certificate can be left out of the generated "
+                  "metadata under %s: what the store serves for that use is no "
+                  "longer what the configuration declares" % gs, fi.loc(c))
+    run.check(seen.get("cert") and seen.get("enc_cert"), "M7",
+              fi.qual + "::both-uses", "signing and encryption descriptors are "
+              "both generated", "descriptors generated for %s only" %
+              sorted(seen), fi.loc())
+    n = 0
+    for c in all_calls_named(m.module("metadata").tree, "do_key_descriptor"):
+        n += 1
+        a = arg_of(c, 1, "enc_cert")
+        f = m.enclosing_function(m.module("metadata"), c)
+        run.check(a is not None and unparse(a) == "enc_cert", "M7",
+                  "%s::do_key_descriptor(enc_cert)" % (f.qual if f else "?"),
+                  "the encryption certificates are handed to the generator",
+                  "do_key_descriptor is called without the encryption "
+                  "certificates (%s)" % (unparse(a) if a is not None else None),
+                  "%s:%d" % (m.module("metadata").relpath, c.lineno),
+                  nontrivial=False)
+    run.floor("M7", "do_key_descriptor callers", n, 5)
+
+
 def check(run):
     run.explanation = (
         "C16: agreement of every accessor's (descriptor, service) keys and of "
@@ -413,8 +497,9 @@ def check(run):
         "tables, validity gates (flag-sensitive, plus fail-open exception "
         "paths), entity isolation and key-use filter, unknown/unsupported "
         "distinction (C09.R4), verify-before-serve with caller inventory, "
-        "duplicate handling. Not decided: exactness for arbitrary federation "
-        "documents; config->metadata->store round trip.")
+        "duplicate handling, generator side of the key round trip "
+        "(do_key_descriptor). Not decided: exactness for arbitrary federation "
+        "documents; the rest of the config->metadata->store round trip.")
     run.assumptions = ["to_dict() keys are the member names of the schema "
                        "classes (mdie.to_dict iterates keyswv())"]
     data = reflect(run.model)
@@ -423,6 +508,7 @@ def check(run):
     c09.r4_store_side(run, rule="M3")
     m4_entity_isolation(run)
     m5_verify_before_serve(run)
+    m7_generator_publishes_every_key(run)
     td = run.model.func("mdie.to_dict")
     run.check("for key in _dict.keyswv()" in unparse(td.node) and
               "res[key] = _val" in unparse(td.node), "M1", td.qual + "::keys",
